@@ -1,41 +1,53 @@
 (* C08 -- swap_memory(): the model meets the specification for every kernel record. *)
 From PV Require Import C08.Spec C08.Lib C08.ProofsRound C08.ProofsVM.
 Require Import ZifyBool.
-Local Set Warnings "-variable-collision".
 
 (* ================================================================ /proc/vmstat lines *)
 Lemma wf_vline_inv v : wf_vline v = true ->
-  no_ws (vl_name v) = true /\ vname_ok (vl_name v) = true /\ is_dec (vl_val v) = true.
+  no_ws (vl_name v) = true /\ vname_ok (vl_name v) = true /\ is_dec (vl_val v) = true /\ vrest_ok (vl_rest v) = true.
 Proof.
-  unfold wf_vline. intros H. apply andb_true_iff in H as [H Hv]. apply andb_true_iff in H as [Hn Ho].
-  apply tok_ok_spec in Hn as [_ Hn]. auto.
+  unfold wf_vline. intros H. apply andb_true_iff in H as [H Hr]. apply andb_true_iff in H as [H Hv].
+  apply andb_true_iff in H as [Hn Ho]. apply tok_ok_spec in Hn as [_ Hn]. auto.
 Qed.
 
-Lemma vline_body v : wf_vline v = true ->
-  exists body, k_vline v = body ++ [10] /\ contains 10 body = false.
+Lemma vitem_body i : wf_vitem i = true ->
+  exists body, k_vitem i = body ++ [10] /\ contains 10 body = false.
 Proof.
-  intros H. apply wf_vline_inv in H as [Hn [_ Hv]].
-  exists (vl_name v ++ 32 :: vl_val v). split.
-  - unfold k_vline. rewrite <- app_assoc. reflexivity.
-  - rewrite contains_app, contains_cons. rewrite (no_ws_contains 10 _ eq_refl Hn), (dec_no_nl _ Hv). reflexivity.
+  destruct i as [v|b]; cbn [wf_vitem k_vitem]; intros H.
+  - apply wf_vline_inv in H as [Hn [_ [Hv Hr]]].
+    unfold vrest_ok in Hr. apply andb_true_iff in Hr as [Hr _]. apply negb_true_iff in Hr.
+    exists (vl_name v ++ 32 :: vl_val v ++ vl_rest v). split.
+    + unfold k_vline. rewrite <- app_assoc. cbn [app]. now rewrite <- app_assoc.
+    + rewrite contains_app, contains_cons, contains_app.
+      rewrite (no_ws_contains 10 _ eq_refl Hn), (dec_no_nl _ Hv), Hr. reflexivity.
+  - apply andb_true_iff in H as [H _]. apply andb_true_iff in H as [H _]. apply negb_true_iff in H. eauto.
 Qed.
 
+(* int(line.split(b' ')[1]): the value, also when further columns follow *)
 Lemma vm_field_line mul v : wf_vline v = true ->
   vm_field mul (k_vline v) = Val (dec_val (vl_val v) * mul).
 Proof.
-  intros H. apply wf_vline_inv in H as [Hn [_ Hv]].
+  intros H. apply wf_vline_inv in H as [Hn [_ [Hv Hr]]].
   unfold vm_field, k_vline. rewrite split_on_app by (now apply no_ws_contains).
-  rewrite split_on_nosep.
-  - cbn [nth_error of_option obind]. unfold py_int. rewrite (parse_int_dec_nl _ Hv). reflexivity.
-  - rewrite contains_app, (dec_no_sp _ Hv). reflexivity.
+  unfold vrest_ok in Hr. apply andb_true_iff in Hr as [_ Hr].
+  destruct (vl_rest v) as [|c r].
+  - cbn [app]. rewrite split_on_nosep.
+    + cbn [nth_error of_option obind]. unfold py_int. rewrite (parse_int_dec_nl _ Hv). reflexivity.
+    + rewrite contains_app, (dec_no_sp _ Hv). reflexivity.
+  - apply Z.eqb_eq in Hr. subst c. cbn [app]. rewrite split_on_app by (now apply dec_no_sp).
+    cbn [nth_error of_option obind]. rewrite (py_int_dec _ Hv). reflexivity.
 Qed.
 
-Definition vstep (mul : Z) (st : option Z * option Z) (v : vline) : option Z * option Z :=
-  if beqb (vl_name v) K_pswpin then (Some (dec_val (vl_val v) * mul), snd st)
-  else if beqb (vl_name v) K_pswpout then (fst st, Some (dec_val (vl_val v) * mul))
-  else st.
+Definition vstep (mul : Z) (st : option Z * option Z) (i : vitem) : option Z * option Z :=
+  match i with
+  | VLine v =>
+    if beqb (vl_name v) K_pswpin then (Some (dec_val (vl_val v) * mul), snd st)
+    else if beqb (vl_name v) K_pswpout then (fst st, Some (dec_val (vl_val v) * mul))
+    else st
+  | VJunk _ => st
+  end.
 
-Fixpoint vloop (mul : Z) (sin sout : option Z) (vs : list vline) : option (Z * Z) :=
+Fixpoint vloop (mul : Z) (sin sout : option Z) (vs : list vitem) : option (Z * Z) :=
   match vs with
   | [] => None
   | v :: r =>
@@ -45,118 +57,143 @@ Fixpoint vloop (mul : Z) (sin sout : option Z) (vs : list vline) : option (Z * Z
     end
   end.
 
-Lemma vmstat_loop_lines mul vs : forall sin sout, forallb wf_vline vs = true ->
-  vmstat_loop mul sin sout (map k_vline vs) = Val (vloop mul sin sout vs).
+Lemma vmstat_loop_lines mul vs : forall sin sout, forallb wf_vitem vs = true ->
+  vmstat_loop mul sin sout (map k_vitem vs) = Val (vloop mul sin sout vs).
 Proof.
-  induction vs as [|v vs IH]; intros sin sout H; [reflexivity|].
+  induction vs as [|i vs IH]; intros sin sout H; [reflexivity|].
   cbn [forallb] in H. apply andb_true_iff in H as [Hv Hr].
-  cbn [map vmstat_loop vloop].
-  pose proof (vm_field_line mul v Hv) as HF.
-  apply wf_vline_inv in Hv as [Hn [Ho Hd]].
-  assert (P1 : prefixb K_pswpin (k_vline v) = prefixb K_pswpin (vl_name v))
-    by (unfold k_vline; apply prefixb_app_sep; reflexivity).
-  assert (P2 : prefixb K_pswpout (k_vline v) = prefixb K_pswpout (vl_name v))
-    by (unfold k_vline; apply prefixb_app_sep; reflexivity).
-  rewrite P1, P2. clear P1 P2.
-  unfold vstep, vname_ok in *.
-  destruct (beqb (vl_name v) K_pswpin) eqn:E1.
-  - apply beqb_eq in E1. rewrite E1. change (prefixb K_pswpin K_pswpin) with true. cbv iota.
-    rewrite HF. cbn [obind snd]. destruct sout; [reflexivity|]. now apply IH.
-  - destruct (beqb (vl_name v) K_pswpout) eqn:E2.
-    + apply beqb_eq in E2. rewrite E2.
-      change (prefixb K_pswpin K_pswpout) with false. change (prefixb K_pswpout K_pswpout) with true. cbv iota.
-      rewrite HF. cbn [obind fst]. destruct sin; [reflexivity|]. now apply IH.
-    + change (bs "pswpin") with K_pswpin in Ho. change (bs "pswpout") with K_pswpout in Ho.
-      rewrite E1, E2 in Ho. cbn [orb] in Ho. apply andb_true_iff in Ho as [O1 O2].
-      apply negb_true_iff in O1. apply negb_true_iff in O2. rewrite O1, O2. cbn [obind].
-      destruct sin as [a|]; [destruct sout as [b|]|]; try now apply IH.
-      (* both already set cannot be reached by the loop, but the equation still holds *)
-      reflexivity.
-Qed.
-
-Definition orelse (a b : option Z) : option Z := match a with Some _ => a | None => b end.
-Definition pages4k (mul : Z) (o : option Z) : option Z := option_map (fun p => p * mul) o.
-Definition both (a b : option Z) : option (Z * Z) :=
-  match a, b with Some x, Some y => Some (x, y) | _, _ => None end.
-
-Lemma vfind_notin name vs : existsb (beqb name) (map vl_name vs) = false -> vfind name vs = None.
-Proof.
-  induction vs as [|v vs IH]; intros H; [reflexivity|].
-  cbn [map existsb] in H. apply orb_false_iff in H as [H1 H2]. cbn [vfind]. rewrite H1. now apply IH.
-Qed.
-
-Lemma vloop_spec mul vs : forall sa sb,
-  nodupb (map vl_name vs) = true ->
-  (sa <> None -> existsb (beqb K_pswpin) (map vl_name vs) = false) ->
-  (sb <> None -> existsb (beqb K_pswpout) (map vl_name vs) = false) ->
-  (sa = None \/ sb = None) ->
-  vloop mul sa sb vs = both (orelse sa (pages4k mul (vfind K_pswpin vs))) (orelse sb (pages4k mul (vfind K_pswpout vs))).
-Proof.
-  induction vs as [|v vs IH]; intros sa sb Hn Ha Hb Hab.
-  - cbn. destruct Hab as [-> | ->]; [reflexivity|]. destruct sa; reflexivity.
-  - cbn [map nodupb] in Hn. apply andb_true_iff in Hn as [Hn1 Hn2]. apply negb_true_iff in Hn1.
-    cbn [vloop vfind]. unfold vstep. cbn [fst snd].
-    rewrite (beqb_sym K_pswpin (vl_name v)), (beqb_sym K_pswpout (vl_name v)).
+  cbn [map vmstat_loop vloop]. destruct i as [v|b].
+  - cbn [k_vitem wf_vitem] in *.
+    pose proof (vm_field_line mul v Hv) as HF.
+    apply wf_vline_inv in Hv as [Hn [Ho [Hd _]]].
+    assert (P1 : prefixb K_pswpin (k_vline v) = prefixb K_pswpin (vl_name v))
+      by (unfold k_vline; apply prefixb_app_sep; reflexivity).
+    assert (P2 : prefixb K_pswpout (k_vline v) = prefixb K_pswpout (vl_name v))
+      by (unfold k_vline; apply prefixb_app_sep; reflexivity).
+    rewrite P1, P2. clear P1 P2.
+    unfold vstep, vname_ok in *.
     destruct (beqb (vl_name v) K_pswpin) eqn:E1.
-    + apply beqb_eq in E1.
-      assert (sa = None) as ->.
-      { destruct sa; [|reflexivity]. specialize (Ha ltac:(discriminate)).
-        cbn [map existsb] in Ha. rewrite E1, beqb_refl in Ha. discriminate. }
-      assert (E2 : beqb (vl_name v) K_pswpout = false) by (rewrite E1; reflexivity).
-      rewrite E2. cbn [orelse pages4k option_map].
-      destruct sb as [b|].
-      * reflexivity.
-      * assert (X1 : Some (dec_val (vl_val v) * mul) <> None ->
-                     existsb (beqb K_pswpin) (map vl_name vs) = false)
-          by (intros _; rewrite <- E1; exact Hn1).
-        assert (X2 : @None Z <> None -> existsb (beqb K_pswpout) (map vl_name vs) = false)
-          by (intros X; congruence).
-        rewrite (IH _ _ Hn2 X1 X2 (or_intror eq_refl)). reflexivity.
+    + apply beqb_eq in E1. rewrite E1. change (prefixb K_pswpin K_pswpin) with true. cbv iota.
+      rewrite HF. cbn [obind snd]. destruct sout; [reflexivity|]. now apply IH.
     + destruct (beqb (vl_name v) K_pswpout) eqn:E2.
-      * apply beqb_eq in E2.
-        assert (sb = None) as ->.
-        { destruct sb; [|reflexivity]. specialize (Hb ltac:(discriminate)).
-          cbn [map existsb] in Hb. rewrite E2, beqb_refl in Hb. discriminate. }
-        cbn [orelse pages4k option_map].
-        destruct sa as [a|].
-        -- reflexivity.
-        -- assert (X1 : @None Z <> None -> existsb (beqb K_pswpin) (map vl_name vs) = false)
-             by (intros X; congruence).
-           assert (X2 : Some (dec_val (vl_val v) * mul) <> None ->
-                        existsb (beqb K_pswpout) (map vl_name vs) = false)
-             by (intros _; rewrite <- E2; exact Hn1).
-           rewrite (IH _ _ Hn2 X1 X2 (or_introl eq_refl)). reflexivity.
-      * assert (IHx : vloop mul sa sb vs =
-                      both (orelse sa (pages4k mul (vfind K_pswpin vs))) (orelse sb (pages4k mul (vfind K_pswpout vs)))).
-        { apply IH; auto.
-          - intros X. specialize (Ha X). cbn [map existsb] in Ha. now apply orb_false_iff in Ha as [_ Ha].
-          - intros X. specialize (Hb X). cbn [map existsb] in Hb. now apply orb_false_iff in Hb as [_ Hb]. }
-        destruct sa as [a|]; [destruct sb as [b|]|]; try exact IHx.
-        destruct Hab; discriminate.
+      * apply beqb_eq in E2. rewrite E2.
+        change (prefixb K_pswpin K_pswpout) with false. change (prefixb K_pswpout K_pswpout) with true. cbv iota.
+        rewrite HF. cbn [obind fst]. destruct sin; [reflexivity|]. now apply IH.
+      * change (bs "pswpin") with K_pswpin in Ho. change (bs "pswpout") with K_pswpout in Ho.
+        rewrite E1, E2 in Ho. cbn [orb] in Ho. apply andb_true_iff in Ho as [O1 O2].
+        apply negb_true_iff in O1. apply negb_true_iff in O2. rewrite O1, O2. cbn [obind].
+        destruct sin as [a|]; [destruct sout as [b0|]|]; try now apply IH.
+        reflexivity.
+  - cbn [k_vitem wf_vitem vstep] in *.
+    apply andb_true_iff in Hv as [Hv O2]. apply andb_true_iff in Hv as [_ O1].
+    apply negb_true_iff in O1. apply negb_true_iff in O2.
+    change (b ++ [10]) with (b ++ 10 :: []).
+    rewrite !prefixb_app_sep by reflexivity.
+    change (bs "pswpin") with K_pswpin in O1. change (bs "pswpout") with K_pswpout in O2.
+    rewrite O1, O2. cbn [obind].
+    destruct sin as [a|]; [destruct sout as [b0|]|]; try now apply IH.
+    reflexivity.
+Qed.
+
+(* the loop of the code is the log reading of the specification, in bytes *)
+Definition scale (mul : Z) (o : option Z) : option Z := option_map (fun p => p * mul) o.
+Lemma vloop_scan mul vs : forall i o,
+  vloop mul (scale mul i) (scale mul o) vs =
+  match sw_scan i o vs with Some (a, b) => Some (a * mul, b * mul) | None => None end.
+Proof.
+  induction vs as [|it vs IH]; intros i o; [reflexivity|].
+  cbn [vloop sw_scan]. destruct it as [v|b]; cbn [vstep fst snd].
+  - change (bs "pswpin") with K_pswpin. change (bs "pswpout") with K_pswpout.
+    destruct (beqb (vl_name v) K_pswpin).
+    + destruct o as [y|]; cbn [scale option_map]; [reflexivity|].
+      apply (IH (Some (dec_val (vl_val v))) None).
+    + destruct (beqb (vl_name v) K_pswpout).
+      * destruct i as [x|]; cbn [scale option_map]; [reflexivity|].
+        apply (IH None (Some (dec_val (vl_val v)))).
+      * destruct i as [x|]; [destruct o as [y|]|]; cbn [scale option_map]; try reflexivity;
+          try apply (IH (Some x) None); try apply (IH None o).
+  - destruct i as [x|]; [destruct o as [y|]|]; cbn [scale option_map]; try reflexivity;
+      try apply (IH (Some x) None); try apply (IH None o).
 Qed.
 
 Theorem vmstat_printed mul vs : wf_vmstat vs = true ->
   vmstat_loop mul None None (lines_keep (k_vmstat vs))
-  = Val (both (pages4k mul (vfind K_pswpin vs)) (pages4k mul (vfind K_pswpout vs))).
+  = Val match sw_scan None None vs with Some (a, b) => Some (a * mul, b * mul) | None => None end.
 Proof.
-  intros H. unfold wf_vmstat in H. apply andb_true_iff in H as [Hw Hn].
-  unfold k_vmstat. rewrite lines_keep_concat.
-  - rewrite vmstat_loop_lines by exact Hw. f_equal.
-    rewrite vloop_spec; auto; congruence.
-  - intros v Hv. apply vline_body. rewrite forallb_forall in Hw. now apply Hw.
+  intros Hw. unfold wf_vmstat in Hw. unfold k_vmstat. rewrite lines_keep_concat.
+  - rewrite vmstat_loop_lines by exact Hw. f_equal. apply (vloop_scan mul vs None None).
+  - intros v Hv. apply vitem_body. rewrite forallb_forall in Hw. now apply Hw.
 Qed.
 
+(* with distinct names (what every kernel prints) the log reading is the lookup by name *)
+Definition orelse (a b : option Z) : option Z := match a with Some _ => a | None => b end.
+Definition both (a b : option Z) : option (Z * Z) :=
+  match a, b with Some x, Some y => Some (x, y) | _, _ => None end.
+
+Lemma sw_scan_lookup vs : forall sa sb,
+  nodupb (vnames vs) = true ->
+  (sa <> None -> existsb (beqb K_pswpin) (vnames vs) = false) ->
+  (sb <> None -> existsb (beqb K_pswpout) (vnames vs) = false) ->
+  (sa = None \/ sb = None) ->
+  sw_scan sa sb vs = both (orelse sa (vfind K_pswpin vs)) (orelse sb (vfind K_pswpout vs)).
+Proof.
+  induction vs as [|it vs IH]; intros sa sb Hn Ha Hb Hab.
+  - cbn. destruct Hab as [-> | ->]; [reflexivity|]. destruct sa; reflexivity.
+  - destruct it as [v|b].
+    + cbn [vnames nodupb] in Hn. apply andb_true_iff in Hn as [Hn1 Hn2]. apply negb_true_iff in Hn1.
+      cbn [sw_scan vfind]. change (bs "pswpin") with K_pswpin. change (bs "pswpout") with K_pswpout.
+      rewrite (beqb_sym K_pswpin (vl_name v)), (beqb_sym K_pswpout (vl_name v)).
+      destruct (beqb (vl_name v) K_pswpin) eqn:E1.
+      * apply beqb_eq in E1.
+        assert (sa = None) as ->.
+        { destruct sa; [|reflexivity]. specialize (Ha ltac:(discriminate)).
+          cbn [vnames existsb] in Ha. rewrite E1, beqb_refl in Ha. discriminate. }
+        assert (E2 : beqb (vl_name v) K_pswpout = false) by (rewrite E1; reflexivity).
+        rewrite E2. cbn [orelse].
+        destruct sb as [b|]; [reflexivity|].
+        assert (X1 : Some (dec_val (vl_val v)) <> None -> existsb (beqb K_pswpin) (vnames vs) = false)
+          by (intros _; rewrite <- E1; exact Hn1).
+        assert (X2 : @None Z <> None -> existsb (beqb K_pswpout) (vnames vs) = false) by (intros X; congruence).
+        rewrite (IH _ _ Hn2 X1 X2 (or_intror eq_refl)). reflexivity.
+      * destruct (beqb (vl_name v) K_pswpout) eqn:E2.
+        -- apply beqb_eq in E2.
+           assert (sb = None) as ->.
+           { destruct sb; [|reflexivity]. specialize (Hb ltac:(discriminate)).
+             cbn [vnames existsb] in Hb. rewrite E2, beqb_refl in Hb. discriminate. }
+           cbn [orelse]. destruct sa as [a|]; [reflexivity|].
+           assert (X1 : @None Z <> None -> existsb (beqb K_pswpin) (vnames vs) = false) by (intros X; congruence).
+           assert (X2 : Some (dec_val (vl_val v)) <> None -> existsb (beqb K_pswpout) (vnames vs) = false)
+             by (intros _; rewrite <- E2; exact Hn1).
+           rewrite (IH _ _ Hn2 X1 X2 (or_introl eq_refl)). reflexivity.
+        -- assert (IHx : sw_scan sa sb vs =
+                         both (orelse sa (vfind K_pswpin vs)) (orelse sb (vfind K_pswpout vs))).
+           { apply IH; auto.
+             - intros X. specialize (Ha X). cbn [vnames existsb] in Ha. now apply orb_false_iff in Ha as [_ Ha].
+             - intros X. specialize (Hb X). cbn [vnames existsb] in Hb. now apply orb_false_iff in Hb as [_ Hb]. }
+           destruct sa as [a|]; [destruct sb as [b|]|]; try exact IHx.
+           destruct Hab; discriminate.
+    + cbn [vnames] in *. cbn [sw_scan vfind].
+      assert (IHx : sw_scan sa sb vs =
+                    both (orelse sa (vfind K_pswpin vs)) (orelse sb (vfind K_pswpout vs))) by (apply IH; auto).
+      destruct sa as [a|]; [destruct sb as [b0|]|]; try exact IHx.
+      destruct Hab; discriminate.
+Qed.
+
+Theorem sw_scan_distinct vs : nodupb (vnames vs) = true ->
+  sw_scan None None vs = both (vfind (bs "pswpin") vs) (vfind (bs "pswpout") vs).
+Proof. intros H. rewrite sw_scan_lookup; auto; congruence. Qed.
+
 (* ================================================================ main theorems *)
-(* [mul] = what the code multiplies the page counts by *)
-Lemma swap_general mul k : wf_kernel k = true ->
-  swap_memory mul (k_meminfo (k_mem k)) (k_sysinfo k) (option_map k_vmstat (k_vm k))
+Local Set Warnings "-variable-collision".
+(* [mul] = what the code multiplies the page counts by; [len] = lenient meminfo parser *)
+Lemma swap_general len mul k : wf_kernel k = true -> (len = true \/ no_junk (k_mem k) = true) ->
+  swap_memory_gen len mul (k_meminfo (k_mem k)) (k_sysinfo k) (option_map k_vmstat (k_vm k))
   = Val (spec_swap {| k_mem := k_mem k; k_zone := k_zone k; k_vm := k_vm k;
                       k_pagesize := mul; k_sysinfo := k_sysinfo k |}).
 Proof.
-  intros Hwf. unfold wf_kernel in Hwf.
-  apply andb_true_iff in Hwf as [Hwf Hv]. apply andb_true_iff in Hwf as [Hm _].
-  destruct (parse_meminfo_printed (k_mem k) Hm) as [d [Hp Hd]].
-  unfold swap_memory. rewrite Hp. cbn [obind]. unfold K_SwapTotal, K_SwapFree. rewrite !Hd.
+  intros Hwf HL. apply wf_kernel_inv in Hwf as [Hm [_ Hv]].
+  destruct (parse_meminfo_printed len (k_mem k) Hm HL) as [d [Hp Hd]].
+  unfold swap_memory_gen. rewrite Hp. cbn [obind]. unfold K_SwapTotal, K_SwapFree. rewrite !Hd.
   unfold spec_swap, sw_io, sw_percent10, sw_used, sw_total, sw_free, sw_total_free.
   cbn [k_mem k_vm k_pagesize k_sysinfo].
   set (tf := match kbytes (k_mem k) "SwapTotal:" with
@@ -169,25 +206,33 @@ Proof.
   destruct tf as [t f]. cbn [fst snd].
   destruct (k_vm k) as [vs|]; cbn [option_map opt_forall] in *.
   - rewrite (vmstat_printed mul vs Hv). cbn [obind].
-    change (bs "pswpin") with K_pswpin. change (bs "pswpout") with K_pswpout.
-    destruct (vfind K_pswpin vs) as [i|]; [|reflexivity].
-    destruct (vfind K_pswpout vs) as [o|]; reflexivity.
+    destruct (sw_scan None None vs) as [[i o]|]; reflexivity.
   - reflexivity.
 Qed.
 
-(* the code as it is now (commit fe3ce75) multiplies by the page size: full strength *)
-Theorem swap_exact k : wf_kernel k = true ->
+Theorem swap_exact_gen len k : wf_kernel k = true -> (len = true \/ no_junk (k_mem k) = true) ->
+  swap_memory_gen len (k_pagesize k) (k_meminfo (k_mem k)) (k_sysinfo k) (option_map k_vmstat (k_vm k))
+  = Val (spec_swap k).
+Proof. intros Hwf HL. rewrite (swap_general len (k_pagesize k) k Hwf HL). destruct k; reflexivity. Qed.
+
+(* the code as it is now (commit fe3ce75 multiplies by the page size) *)
+Theorem swap_exact k : wf_kernel k = true -> no_junk (k_mem k) = true ->
   swap_memory (k_pagesize k) (k_meminfo (k_mem k)) (k_sysinfo k) (option_map k_vmstat (k_vm k))
   = Val (spec_swap k).
-Proof. intros Hwf. rewrite (swap_general (k_pagesize k) k Hwf). destruct k; reflexivity. Qed.
+Proof. intros Hwf Hj. apply (swap_exact_gen false); auto. Qed.
+
+Theorem swap_exact_lenient k : wf_kernel k = true ->
+  swap_memory_gen true (k_pagesize k) (k_meminfo (k_mem k)) (k_sysinfo k) (option_map k_vmstat (k_vm k))
+  = Val (spec_swap k).
+Proof. intros Hwf. apply (swap_exact_gen true); auto. Qed.
 
 (* the code before fe3ce75 multiplied by the literal 4096 whatever the page size: on a
    64K-page kernel the demanded bytes (pages * page size) were not what it reported *)
+Definition vl (n v : string) : vitem := VLine {| vl_name := bs n; vl_val := bs v; vl_rest := [] |}.
 Definition bigpage_kernel : kernel :=
   {| k_mem := [ ml "SwapTotal:" 5 "2097148"; ml "SwapFree:" 6 "2000000" ];
      k_zone := None;
-     k_vm := Some [ {| vl_name := bs "pgpgin"; vl_val := bs "7" |}; {| vl_name := bs "pswpin"; vl_val := bs "1" |};
-                    {| vl_name := bs "pswpout"; vl_val := bs "2" |} ];
+     k_vm := Some [ vl "pgpgin" "7"; vl "pswpin" "1"; vl "pswpout" "2" ];
      k_pagesize := 65536; k_sysinfo := (0, 0, 1) |}.
 Theorem swap_literal_4096_refuted :
   exists k r, wf_kernel k = true /\ k_pagesize k = 65536 /\
@@ -204,25 +249,52 @@ Proof.
   apply round_he_range; nia.
 Qed.
 
+(* swap percent is the exact ratio used*100/total rounded half-to-even to one decimal *)
+Theorem swap_percent_half_even k : 0 < sw_total k ->
+  nearest_even (sw_percent10 k) ((sw_total k - sw_free k) * 1000) (sw_total k).
+Proof.
+  intros Ht. unfold sw_percent10, sw_used. assert (sw_total k =? 0 = false) as -> by lia.
+  assert (0 <? sw_total k = true) as -> by lia. now apply round_he_nearest.
+Qed.
+
 (* whichever of vmstat / the two counters is missing: the call succeeds, sin = sout = 0, warning *)
-Theorem swap_missing_counters k r : wf_kernel k = true ->
+Theorem swap_missing_counters k r : wf_kernel k = true -> no_junk (k_mem k) = true ->
   swap_memory (k_pagesize k) (k_meminfo (k_mem k)) (k_sysinfo k) (option_map k_vmstat (k_vm k)) = Val r ->
   (k_vm k = None \/
-   (exists vs, k_vm k = Some vs /\ (vfind (bs "pswpin") vs = None \/ vfind (bs "pswpout") vs = None))) ->
+   (exists vs, k_vm k = Some vs /\ nodupb (vnames vs) = true /\
+               (vfind (bs "pswpin") vs = None \/ vfind (bs "pswpout") vs = None))) ->
   s_sin r = 0 /\ s_sout r = 0 /\ s_warned r = true /\
   s_total r = sw_total k /\ s_free r = sw_free k /\ s_used r = sw_total k - sw_free k.
 Proof.
-  intros Hwf Hr H. rewrite (swap_exact k Hwf) in Hr. injection Hr as <-.
-  unfold spec_swap, sw_io, sw_used. destruct H as [-> | [vs [-> [E|E]]]].
+  intros Hwf Hj Hr H. rewrite (swap_exact k Hwf Hj) in Hr. injection Hr as <-.
+  unfold spec_swap, sw_io, sw_used. destruct H as [-> | [vs [-> [Hn [E|E]]]]].
   - cbn [s_sin s_sout s_warned s_total s_free s_used]. repeat split; reflexivity.
-  - rewrite E. cbn [s_sin s_sout s_warned s_total s_free s_used]. repeat split; reflexivity.
-  - rewrite E. destruct (vfind (bs "pswpin") vs);
-      cbn [s_sin s_sout s_warned s_total s_free s_used]; repeat split; reflexivity.
+  - rewrite (sw_scan_distinct vs Hn), E. cbn [both s_sin s_sout s_warned s_total s_free s_used]. repeat split; reflexivity.
+  - rewrite (sw_scan_distinct vs Hn), E. destruct (vfind (bs "pswpin") vs);
+      cbn [both s_sin s_sout s_warned s_total s_free s_used]; repeat split; reflexivity.
 Qed.
 
-Example sample_swap_ok :
-  0 <= sw_free sample_kernel <= sw_total sample_kernel /\
-  spec_swap sample_kernel =
-    {| s_total := 2097148 * 1024; s_used := 97148 * 1024; s_free := 2000000 * 1024; s_percent10 := 46;
-       s_sin := 5 * 4096; s_sout := 17 * 4096; s_warned := false |}.
-Proof. vm_compute. split; [split; congruence|reflexivity]. Qed.
+(* the ordinary case, spelled out: distinct names, both counters present *)
+Theorem swap_counters_distinct k vs i o : wf_kernel k = true -> no_junk (k_mem k) = true ->
+  k_vm k = Some vs -> nodupb (vnames vs) = true ->
+  vfind (bs "pswpin") vs = Some i -> vfind (bs "pswpout") vs = Some o ->
+  exists r, swap_memory (k_pagesize k) (k_meminfo (k_mem k)) (k_sysinfo k) (option_map k_vmstat (k_vm k)) = Val r /\
+            s_sin r = i * k_pagesize k /\ s_sout r = o * k_pagesize k /\ s_warned r = false.
+Proof.
+  intros Hwf Hj Hv Hn Hi Ho. eexists. split; [apply (swap_exact k Hwf Hj)|].
+  unfold spec_swap, sw_io. rewrite Hv, (sw_scan_distinct vs Hn), Hi, Ho. cbn. auto.
+Qed.
+
+(* repeated counter lines and extra columns: "pswpin 1 / pswpin 2 x / pswpout 3 / pswpin 9" is read
+   as sin = 2 pages, sout = 3 pages (the last pswpin before both are known) *)
+Example swap_duplicates_example :
+  let k := {| k_mem := [ ml "SwapTotal:" 5 "100"; ml "SwapFree:" 6 "40" ]; k_zone := None;
+              k_vm := Some [ vl "pswpin" "1"; VJunk (bs "nr_foo");
+                             VLine {| vl_name := bs "pswpin"; vl_val := bs "2"; vl_rest := bs " x" |};
+                             vl "pswpout" "3"; vl "pswpin" "9" ];
+              k_pagesize := 4096; k_sysinfo := (0, 0, 1) |} in
+  wf_kernel k = true /\
+  swap_memory 4096 (k_meminfo (k_mem k)) (k_sysinfo k) (option_map k_vmstat (k_vm k)) =
+    Val {| s_total := 102400; s_used := 61440; s_free := 40960; s_percent10 := 600;
+           s_sin := 8192; s_sout := 12288; s_warned := false |}.
+Proof. vm_compute. split; reflexivity. Qed.
